@@ -1,3 +1,21 @@
+/-
+  Props/C08.lean — normal forms and contraction-order optimisation preserve value (part 1).
+
+  Everything is stated over an ARBITRARY commutative semiring `R` ((add,mul) on reals, (logaddexp,add)
+  through exp, (max,add) on `WithBot`, (min,add) on `WithTop`, (max,mul)/(min,mul) on non-negatives,
+  (or,and) on `Bool` are all instances), for operands, variable sets, sizes and paths of any size.
+
+    §1  the semiring core: named finite sums — `sum1_comm`, `sum1_mul_indep`, `sum1_absent`
+        (sum over an absent variable = multiplicity), their list versions `sumVars_perm`,
+        `sumVars_mul_indep`, `sumVars_absent`
+    §2  the optimizer (`optimize_contract_finitary_funsor`, path as a parameter): loop invariant `Inv`,
+        `inv_step`, `optimize_computes_mentioned` (what the code computes for EVERY well-formed path),
+        `optimize_any_path_sound` (= `⨁_reduced ⨂ terms` when `reduced ⊆ ⋃ operand inputs`, with the
+        inputs law), `optimize_absent_loses_multiplicity`, `optimize_absent_var_witness`,
+        `optimize_needs_cover` (the covering hypothesis cannot be dropped)
+  Part 2 (rules of normalize / unfold, `normalize_idempotent_flat`) is Props/C08/Rules.lean; the
+  obligations over the generated op tables are Props/C08/Tables.lean.
+-/
 import Mathlib.Algebra.BigOperators.Ring.Finset
 import Mathlib.Algebra.BigOperators.Group.Finset.Sigma
 import FunsorVerif.Model.C08
